@@ -80,10 +80,10 @@ def run(chk):
     def rec(arg):
         i, subj = arg
         tf = os.path.join(wd, "soak_%d_%s.ndjson" % (i, subj))
-        steps = (100000 + 7777 * i) if quick else (10000000 + 7777 * i)
+        steps = (100000 + 7777 * i) if (quick or i >= 3) else (10000000 + 7777 * i)
         n = lines_of(run_harness(yr, ["soak-record", chk.seed * 10 + i, steps, tf, "small" if quick else "full", subj], timeout=3000))[0]["events"]
         return (tf, n, steps)
-    for job in parallel([(i, sj) for i in range(2 if quick else 3) for sj in SOAK], rec, nproc=8):
+    for job in parallel([(i, sj) for i in (range(2) if quick else [0, 1, 2, 3, 4]) for sj in SOAK]   # thorough: three 1e7-step runs + the two 1e5-step ones, rec, nproc=8):
         jobs.append(job)
 
     def val(job):
@@ -99,7 +99,10 @@ def run(chk):
             k = info["matched"]
             st = max(i for i in range(k + 1) if evs[i]["ev"] == "ckpt")
             p = evs[st]
-            chk.finding("%s:soak:%s" % (p["subject"], "panic" if p.get("panic") else "value"),
+            # the key carries the length class of the soak: the open drift findings (WMA / HMA) concern 1e7-step streams only,
+            # a rejection of a 1e5-step checkpoint is a different violation and must not be absorbed by them
+            scale = "1e7" if job[2] >= 5000000 else "1e5"
+            chk.finding("%s:soak:%s@%s" % (p["subject"], "panic" if p.get("panic") else "value", scale),
                         {"stage": "B:soak", "trace": job[0], "steps": job[2], "params": p["params"], "rejected_at": {kk: info[kk] for kk in ("matched", "total")}})
     chk.cov["traces_validated_against_impl"] += len(jobs)
     chk.stage("B:soak", traces=len(jobs), steps_per_instance=sorted(set(j[2] for j in jobs)), subjects=19, instances_per_subject=4)
